@@ -460,3 +460,92 @@ def resolve_local(fi, expr, depth=3):
 def kw_text(fi, call):
     """keyword arguments of a call as source text, local single-assignment names resolved"""
     return {k.arg: unparse(resolve_local(fi, k.value)) for k in call.keywords if k.arg}
+
+
+_CALLERS_CACHE = {}
+
+
+def callers_of(idx, fi):
+    """functions that call a method named like fi (name-based; receiver `self`/`cls` for private helpers)"""
+    key = id(idx)
+    if key not in _CALLERS_CACHE:
+        table = {}
+        for f in idx.all_funcs("csvpath/"):
+            for n in walk_no_nested(f.node):
+                if isinstance(n, ast.Call):
+                    nm = call_name(n)
+                    if nm:
+                        table.setdefault(nm, []).append((f, n))
+        _CALLERS_CACHE.clear()
+        _CALLERS_CACHE[key] = table
+    return _CALLERS_CACHE[key].get(fi.name, [])
+
+
+def owners_of(idx, fi, allowed, depth=4):
+    """the members of `allowed` (a set of 'Class.method' names) on whose behalf fi runs: fi itself, or — when fi is a private helper
+    (method of the same class hierarchy, or module-level function of the same file) — the allowed functions its call chains come
+    from.  Empty when fi is reachable from a function outside `allowed`, or from nowhere.  Makes who-may-write / who-may-call rules
+    robust to extract-method refactorings."""
+    if fi.qual in allowed:
+        return {fi.qual}
+    if depth == 0 or not fi.name.startswith("_") or fi.name.startswith("__"):
+        return set()
+    owners = set()
+    sites = [(f, c) for f, c in callers_of(idx, fi) if (call_receiver(c) or "").split(".")[0] in ("self", "cls", "super()") or call_receiver(c) is None]
+    if fi.cls is None:
+        sites = [(f, c) for f, c in sites if call_receiver(c) is None and f.file == fi.file]
+    else:
+        keep = []
+        for f, c in sites:
+            if f.cls is None:
+                return set()
+            if f.cls == fi.cls or fi.cls in [k.name for k in idx.mro(f.cls)] or f.cls in [k.name for k in idx.mro(fi.cls)]:
+                keep.append((f, c))
+        sites = keep
+    if not sites:
+        return set()
+    for f, c in sites:
+        o = owners_of(idx, f, allowed, depth - 1)
+        if not o:
+            return set()
+        owners |= o
+    return owners
+
+
+def owner_of(idx, fi, allowed, depth=4):
+    o = owners_of(idx, fi, allowed, depth)
+    return min(o) if o else None
+
+
+def kw_values(idx, fi, call):
+    """keyword arguments of a call as the *values* they denote, computed by the interpreter in the function's own context: local
+    single-assignment names are resolved, `**helper()` dictionaries are expanded (private helpers are followed), attribute chains come
+    back as their dotted text.  Returns name -> text."""
+    from sa.absint import Interp, Residual, Obj, Undecidable, Raised, Path
+    types = {"self": fi.cls} if fi.cls else {}
+    it = Interp(idx, types=types, unknown_calls="residual")
+    it.store = {}
+    it.path = Path()
+    it._prefix, it._decisions, it._memo = [], [], {}
+    it._fi_stack = [fi]
+    frame = {"__self__": "self"}
+    out = {}
+
+    def text(v):
+        if isinstance(v, Residual):
+            return v.text
+        if isinstance(v, Obj):
+            return v.name
+        return repr(v)
+
+    for k in call.keywords:
+        try:
+            v = it.eval(resolve_local(fi, k.value), frame)
+        except (Undecidable, Raised):
+            v = Residual(unparse(k.value))
+        if k.arg:
+            out[k.arg] = text(v)
+        elif isinstance(v, dict):
+            for kk, vv in v.items():
+                out[kk] = text(vv)
+    return out
